@@ -29,4 +29,39 @@ int xv_poll_fd; int xv_poll_timeout; short xv_poll_events; int xv_poll_rc;   /* 
 #define Q_OK(q) (Q_STATE_OK(q) && ((q)->state == query_state_successful ==> ((q)->ips_len >= 1 && (q)->ips_len <= XCM_DNS_MAX_RESULT_SIZE)))
 #define Q_GHOST_OK (XV_DT_CNT_OK(xv_queries) && XV_DT_CNT_OK(xv_regs) && XV_DT_CNT_OK(xv_timers) && XV_DT_CNT_OK(xv_tmgrs))
 
+
+/* ---- part TC (tconnect.c) ------------------------------------------------------------------------------------------
+ * The track whose attempts are logged (bound by `requires(xv_trk == track)`; never assigned by code or stubs). */
+void *xv_trk;
+/* ATTEMPT LOG for ONE arbitrary address index xv_ai (never assigned => every statement about it holds for all indices).
+ * An "attempt on address i" is everything done while track->ip_idx == i: tcp_opts_effectuate, [bind], connect.  A step that
+ * fails (effectuate < 0, bind < 0, connect < 0 with errno != EINPROGRESS) is a FAILED attempt with that errno. */
+int xv_ai;
+unsigned xv_att_begun;        /* attempts begun on address xv_ai (= calls of tcp_opts_effectuate while ip_idx == xv_ai)          */
+unsigned xv_att_failed;       /* failed steps while ip_idx == xv_ai                                                               */
+int xv_att_errno;             /* errno of the last of them                                                                        */
+unsigned xv_att_conn;         /* connect() attempts (real address, not AF_UNSPEC) while ip_idx == xv_ai                            */
+int xv_att_conn_rc, xv_att_conn_errno, xv_att_conn_fd;   /* the last of them: result, errno (0 on success), descriptor            */
+const void *xv_att_conn_src;  /* the struct xcm_addr_ip its address was built from (source of the last tp_ip_to_sockaddr)        */
+/* log over ALL attempts of the track */
+unsigned xv_fail_n;           /* failed steps so far                                                                              */
+int xv_fail_errno;            /* errno of the last failed step = "the errno of the last failed attempt"                           */
+unsigned xv_conn_n;           /* connect() attempts so far                                                                        */
+int xv_conn_idx, xv_conn_fd, xv_conn_rc, xv_conn_errno;   /* the last one: ip_idx at the time, descriptor, result                  */
+unsigned xv_disc_n; int xv_disc_fd;                       /* connect(AF_UNSPEC) calls ("disconnect", track_abort_connect)          */
+/* order of the steps of one attempt: descriptor on which the options snapshot was applied / the local address was bound
+ * since the attempt began (-1: none); reset by every event that ends an attempt */
+int xv_pre_eff_fd, xv_pre_bind_fd;
+unsigned xv_unprepared;       /* connect() attempts on a descriptor that did NOT have &track->tcp_opts applied successfully before */
+unsigned xv_unbound;          /* connect() attempts on a descriptor that was NOT bound to (local_ip, local_port) before            */
+unsigned xv_wrong_addr;       /* connect() attempts whose address was not built from &remote_ips[ip_idx], remote_port             */
+unsigned xv_unregistered;     /* connect() attempts made while the descriptor was not registered for EPOLLOUT (C04)               */
+/* other modules, last call */
+unsigned xv_eff_n; int xv_eff_fd, xv_eff_rc; const void *xv_eff_opts;                       /* tcp_opts_effectuate                */
+const void *xv_sa_src; const void *xv_sa_dst; uint16_t xv_sa_port; int64_t xv_sa_scope;     /* tp_ip_to_sockaddr                  */
+int xv_reg_fd, xv_reg_event, xv_reg_id; int xv_del_id;                                      /* xpoll_fd_reg_add / _del            */
+int64_t xv_sched_id; double xv_sched_timeout; const void *xv_sched_mgr;                     /* timer_mgr_schedule                 */
+_Bool xv_expired_ret; unsigned xv_expired_n;                                                /* timer_mgr_has_expired              */
+unsigned xv_est_n; int xv_est_fd, xv_est_rc, xv_est_errno;                                  /* ut_established                     */
+
 #endif
